@@ -6,7 +6,9 @@ Space: per target (x86 16/32/64, ARM l/b, Thumb l/b, AArch64 l/b, MIPS32 l/b, PP
 `mc/insngen.py` sources (curated vectors, their single-bit flips / major-opcode byte substitutions, opcode-map cubes
 with the menu truncations of BOUNDS).  Every element the decoder accepts is lifted (once per distinct decoded byte
 string of a shard) at the addresses {0, 0x1000, 2^pc_bits - 8} the way the disassembly engine does it
-(offset set, `dstflow2label` for flow-changing instructions), with the target's `lifter_model_call`.
+(offset set, `dstflow2label` for flow-changing instructions), with the target's `lifter_model_call`.  Instructions
+that cannot stand alone get the successors the engine would give them (NOPs): the delay slot of a MIPS32 branch, the
+instructions of a Thumb IT block.
 
 Oracle (the property statement):
   * NotImplementedError                      -> "reported unsupported" (counted, fine)
@@ -43,7 +45,8 @@ LEVEL_TEXT = ("Bounded-exhaustive over explicitly described encoding lattices: e
               "byte (one-byte and 0F maps) of x86 are enumerated completely, operand fields through fixed menus.")
 LEVEL_NOTE = ("Not covered: encodings outside the lattices (operand-field combinations beyond the menus, x86 0F38/0F3A maps "
               "beyond what the 0F slab reaches, three-prefix combinations); addresses other than the three listed; "
-              "lifting of several instructions in one block (delay slots, IT blocks). Trusted: miasm's decoder output "
+              "lifting of several arbitrary instructions in one block (delay slots and IT blocks are filled with NOPs). "
+              "Trusted: miasm's decoder output "
               "is taken as the definition of 'decodable'.")
 TECHNIQUE = "bounded-exhaustive enumeration of encoding lattices with a structural IR well-formedness walk"
 ASSUMPTIONS = ["an instruction is 'decodable' when mn.dis returns without raising",
@@ -185,7 +188,6 @@ def _context(name, t, instr):
         return []
     out = []
     off = instr.offset + instr.l
-    unit = t.unit
     for _k in range(n):
         nop = g.decode(name, t.pack([int(_NOP[t.testdir], 16)]))
         nop.offset = off & ((1 << t.pc_bits) - 1)
